@@ -587,6 +587,31 @@ func main() {
 		}
 	}
 
+	// peer lookups are lookups: asked twice in quick succession for the same key, with a re-definition in between, the second answer
+	// is the new definition (whatever the server remembers about what it answered a moment ago)
+	{
+		ipP := net.IPv4(198, 51, 111, 3).To4()
+		versionOfTR := func(tr *ipfix.TemplateRecord) int {
+			ids := make([]uint16, len(tr.FieldSpecifiers))
+			for i, f := range tr.FieldSpecifiers {
+				ids[i] = f.ElementID
+			}
+			return versionOf(ids)
+		}
+		for k := 0; k < 40; k++ {
+			tid := 5000 + k%3
+			for v := 1; v <= 3; v++ {
+				ipfix.NewDecoder(ipP, ipfixTemplateMsg(tid, versionFields(10*k+v))).Decode(mc)
+				for rep := 0; rep < 2; rep++ {
+					var tr ipfix.TemplateRecord
+					if err := rpc.Get(ipfix.RPCRequest{ID: uint16(tid), IP: ipP}, &tr); err != nil || versionOfTR(&tr) != 10*k+v {
+						fail("ipfix: a peer lookup (IRPC.Get) begun after version %d of template %d had been announced answered with version %d (err %v)", 10*k+v, tid, versionOfTR(&tr), err)
+					}
+				}
+			}
+		}
+	}
+
 	// superseding: after a re-announcement that changes ONLY the scope part of an options template, lookups and
 	// data decoding must use the new definition (a "refresh" fast path that compares too little would keep the old one)
 	sup := net.ParseIP("192.0.2.77").To4()
